@@ -81,6 +81,9 @@ type Case struct {
 	// SettleMs: after the callers are done, wait (without any further input)
 	// until every accepted message was seen in a produce request, at most this long.
 	SettleMs int `json:"settle_ms,omitempty"`
+	// StrictLateMs (oracle hint used by C08's steady-stream stratum): >0 = the broker is healthy and batches tiny, a
+	// message reaching the broker more than BatchTimeout + this many ms after it was accepted is a violation.
+	StrictLateMs int `json:"strict_late_ms,omitempty"`
 }
 
 // ID identifies a message: caller.call.index.
